@@ -1,4 +1,4 @@
-\* lagging caches (properties in the form Prop or taint), horizon 3
+\* lagging caches (properties in the form Prop or taint), horizon 2
 SPECIFICATION Spec
 CONSTANTS
  N = 1
@@ -10,7 +10,7 @@ CONSTANTS
  TTL = 2
  Forbid = FALSE
  Foreign = FALSE
- MaxTime = 3
+ MaxTime = 2
  MaxEvq = 2
  MaxFaults = 0
  MaxCrash = 0
